@@ -244,6 +244,7 @@ try:
     _MUTATORS = _MUTATORS | frozenset(['set', 'addnext', 'addprevious', 'replace', 'validate', 'assertValid', 'assert_',
                                        '__call__'])
     _LXML_SUBELEMENT = _etree.SubElement
+    _LXML_MOVERS = frozenset(['append', 'insert', 'extend', 'addnext', 'addprevious', 'replace'])
 except ImportError:                                             # pragma: no cover
     _LXML_SUBELEMENT = None
 _ORDER_SENSITIVE = (builtins.list, builtins.tuple, builtins.enumerate, builtins.zip, builtins.iter, builtins.map,
@@ -282,6 +283,7 @@ class Interp(object):
 
     # ------------------------------------------------------------------ source access
     _src_cache = {}
+    _src_missed = []                   # (module, qualname) of cache misses: lets a parent process warm its own cache
 
     def _source_of(self, fn):
         code = fn.__code__
@@ -289,6 +291,7 @@ class Interp(object):
         hit = Interp._src_cache.get(key)
         if hit is not None:
             return hit
+        Interp._src_missed.append((getattr(fn, '__module__', None), getattr(fn, '__qualname__', None)))
         try:
             lines, first = inspect.getsourcelines(code)
         except (OSError, TypeError) as e:
@@ -955,6 +958,16 @@ class Interp(object):
                     self.store_hook('lock', recv, nm, rest)
                 elif isinstance(recv, _CONTAINERS) and nm in _MUTATORS:
                     self.store_hook('mutate', recv, nm, rest)
+                    if _LXML_SUBELEMENT is not None and isinstance(recv, _etree._Element) and nm in _LXML_MOVERS:
+                        # an element has one parent: putting it into a tree takes it out of the tree it was in
+                        moved = []
+                        for a in rest:
+                            if isinstance(a, _etree._Element):
+                                moved.append(a)
+                            elif nm == 'extend' and isinstance(a, (list, tuple)):
+                                moved.extend(x for x in a if isinstance(x, _etree._Element))
+                        for m in moved:
+                            self.store_hook('mutate', m, 'moved_into_another_tree', (recv,))
             elif fn is _LXML_SUBELEMENT and args:
                 self.store_hook('mutate', args[0], 'SubElement', args[1:])
         if self.set_order is not None and (fn in _ORDER_SENSITIVE or getattr(fn, '__name__', '') in ('join', 'extend',
